@@ -49,6 +49,9 @@ def check(ctx):
     ctx.attempt(_unbound_locals)
     ctx.attempt(_staged_optionals)
     ctx.attempt(_precondition_lengths)
+    ctx.attempt(_divisions)
+    from .c13 import config_separators       # a valid configuration is never rejected
+    ctx.attempt(config_separators, rule='EXC')
     n = common.discarded_results(ctx, _parser_funcs(ctx))
     if n == 0:
         ctx.ok('DISCARD', 'no validated / converted value is computed and dropped (bare-statement calls to pure functions)')
@@ -281,6 +284,37 @@ def _precondition_lengths(ctx):
                       key=f"EXC|{fi.qualname}|precondition|{base}", where=common.loc(fi, x))
     if n == 0:
         ctx.ok('EXC', 'no x[0] / x[-1] relies on a length guard clause that admits the empty sequence')
+
+
+def _divisions(ctx):
+    """No division / modulo by a value that can be zero: the parser package
+    has none on the pinned tree, so every new one needs a divisor that is a
+    non-zero constant or is guarded by a test of the divisor."""
+    n = 0
+    for fi in _parser_funcs(ctx):
+        for x in walk_local(fi.node):
+            if not (isinstance(x, ast.BinOp) and isinstance(x.op, (ast.Div, ast.FloorDiv, ast.Mod))):
+                continue
+            if isinstance(x.op, ast.Mod) and isinstance(x.left, (ast.Constant, ast.JoinedStr)) and \
+                    isinstance(getattr(x.left, 'value', None), str):
+                continue            # '%s' % value  string formatting
+            n += 1
+            d = x.right
+            if isinstance(d, ast.Constant) and isinstance(d.value, (int, float)) and d.value != 0:
+                ctx.ok('EXC', f"{fi.qualname}: `{norm(x)[:40]}` divides by a non-zero constant")
+                continue
+            dtxt = norm(d)
+            inner = norm(d.args[0]) if isinstance(d, ast.Call) and dotted(d.func) == 'abs' and d.args else dtxt
+            guarded = any((t in (f"{dtxt} == 0", f"{inner} == 0") and not pol) or (t in (dtxt, inner) and pol)
+                          or (' == ' in t and not pol and all(p_ in t for p_ in inner.replace(' ', '').split('-')[:2]))
+                          for _e, t, pol in facts_at(x))
+            ctx.check(guarded, 'EXC', f"{fi.qualname}: the divisor of `{norm(x)[:50]}` cannot be zero",
+                      'guarded by a test of the divisor',
+                      f"`{norm(x)[:70]}` divides by `{dtxt}`, which is zero for some input (a range whose two ends are equal, "
+                      f"'Lots 3 - 3') and is not tested first: ZeroDivisionError escapes the parser",
+                      key=f"EXC|{fi.qualname}|zero-division|{dtxt[:30]}", where=common.loc(fi, x))
+    if n == 0:
+        ctx.ok('EXC', 'the parser package performs no division / modulo')
 
 
 def _parser_funcs(ctx):
